@@ -535,6 +535,8 @@ pub struct GenCfg {
     pub nested_phantom: bool,
     pub allow_duration: bool,
     pub allow_compact: bool,
+    /// `Compact<()>` (legal, zero bytes; outside the class of the example-value property)
+    pub compact_unit: bool,
     pub allow_codec_skip: bool,
     /// few names, sibling names Foo/Foo1/Foo11
     pub hostile_names: bool,
@@ -560,6 +562,7 @@ impl Default for GenCfg {
             nested_phantom: false,
             allow_duration: true,
             allow_compact: true,
+            compact_unit: false,
             allow_codec_skip: true,
             hostile_names: false,
             docs: true,
@@ -682,7 +685,13 @@ impl<'r, R: Rng> ProgGen<'r, R> {
                     Ty::RangeInclusive(Ty::Prim(p).b())
                 }
             }
-            15 if self.cfg.allow_compact => Ty::Compact(Ty::Prim(*Prim::UINTS.choose(self.rng).unwrap()).b()),
+            15 if self.cfg.allow_compact => {
+                if self.cfg.compact_unit && self.chance(0.1) {
+                    Ty::Compact(Ty::Tuple(vec![]).b())
+                } else {
+                    Ty::Compact(Ty::Prim(*Prim::UINTS.choose(self.rng).unwrap()).b())
+                }
+            }
             16 if self.cfg.allow_bitvec => Ty::BitVec(
                 *[Prim::U8, Prim::U16, Prim::U32, Prim::U64].choose(self.rng).unwrap(),
                 self.chance(0.5),
